@@ -30,7 +30,7 @@ pub(crate) struct Candidate {
 }
 
 impl Candidate {
-    fn cmp_key(&self) -> impl Ord {
+    pub(crate) fn cmp_key(&self) -> impl Ord {
         (
             self.estimated_output_size,
             self.image.data.len(),
